@@ -3,6 +3,7 @@
 package drv
 
 import (
+	"strings"
 	"testing"
 
 	"verifharness/internal/lip58"
@@ -34,15 +35,17 @@ func TestSmokeRoundRobin(t *testing.T) {
 			}
 			last[g] = h
 			for _, mm := range Compare(n.Mod.API(), n.Store(), m, CompareOpts{Header: bh, RefHeader: rh}) {
-				t.Logf("long=%v h=%d mismatch %s: %s", long, h, mm.Key, mm.Detail)
+				if strings.HasPrefix(mm.Key, "ImpliesMaximalPrevotes") {
+					// reported by the C02 check as a finding on the unchanged tree; not this smoke test's subject
+					continue
+				}
+				t.Errorf("long=%v h=%d mismatch %s: %s", long, h, mm.Key, mm.Detail)
 			}
 			n.Commit()
 			for _, mm := range Compare(n.Mod.API(), n.Store(), m, CompareOpts{BelowWindow: true}) {
-				t.Logf("long=%v h=%d (committed) mismatch %s: %s", long, h, mm.Key, mm.Detail)
+				t.Errorf("long=%v h=%d (committed) mismatch %s: %s", long, h, mm.Key, mm.Detail)
 			}
-			if !long {
-				n.cur = nil
-			}
+			n.Discard()
 		}
 	}
 }
